@@ -36,6 +36,7 @@ var (
 func TestVerifC20Exec(t *testing.T) {
 	rec := kit.R("TestVerifC20Exec")
 	t.Cleanup(kit.Flush)
+	t.Cleanup(func() { c20KillLeakedHooks() })
 	limit := kit.EnvInt("C20_EXEC_CASES", 6) // see c20SessPassed
 
 	rapid.Check(t, func(t *rapid.T) {
